@@ -1040,10 +1040,14 @@ Definition crypto_of_tables (t : tables) : crypto :=
     (fun ty b => ty ++ 0 :: b)          (* the driver reports a PEM block as type, NUL, DER *)
     (fun b => assoc zlist_eqb b (tb_cert t)).
 
-(** [hexb n z]: the [n]-byte big-endian string of [z] (compact byte strings in cases files) *)
-Fixpoint hexb_aux (n : nat) (z : Z) (acc : bytes) : bytes :=
-  match n with
-  | O => acc
-  | S k => hexb_aux k (z / 256) (z mod 256 :: acc)
+(** [hexb n z]: the [n]-byte big-endian string of [z >= 0] (compact byte strings in cases
+    files).  Walks the bits of the literal: linear, unlike repeated division. *)
+Fixpoint pos_bytes_le (p : positive) (cur w : Z) (k : nat) : bytes :=
+  match p with
+  | xH => [cur + w]
+  | xO q => if Nat.eqb k 7 then cur :: pos_bytes_le q 0 1 O else pos_bytes_le q cur (2 * w) (S k)
+  | xI q => if Nat.eqb k 7 then (cur + w) :: pos_bytes_le q 0 1 O else pos_bytes_le q (cur + w) (2 * w) (S k)
   end.
-Definition hexb (n z : Z) : bytes := hexb_aux (Z.to_nat n) z [].
+Definition hexb (n z : Z) : bytes :=
+  let le := match z with Zpos p => pos_bytes_le p 0 1 O | _ => [] end in
+  repeat 0 (Z.to_nat n - length le) ++ rev' le.
